@@ -124,3 +124,35 @@ Theorem C06_refuted_file_mode_shutdown_terminates_started_call :
   /\ freach rf_cfg rc_init rc_s4.
 Proof. exact file_shutdown_terminates_started_call. Qed.
 Print Assumptions C06_refuted_file_mode_shutdown_terminates_started_call.
+
+(* ---- per-call-process executor and dependency resolver (either inner executor), Proofs/Fidelity.v ---- *)
+From EL Require Model.DepExec Proofs.StepSafe Proofs.DepSafe Proofs.Fidelity.
+Theorem C06_percall_body_needs_running :
+  forall c n prog x t x' i,
+    ExecInv.wf_prog n prog -> StepSafe.xreach c (StepExec.xinit n prog) x ->
+    StepExec.xstep c x t = Some (x', Exec.LBody i) -> Exec.getf (StepExec.base x) i = Exec.FRunning.
+Proof. exact Fidelity.step_body_running. Qed.
+Print Assumptions C06_percall_body_needs_running.
+
+Theorem C06_percall_cancelled_never_runs :
+  forall c n prog x x' t x'' i,
+    ExecInv.wf_prog n prog -> StepSafe.xreach c (StepExec.xinit n prog) x ->
+    (Exec.getf (StepExec.base x) i = Exec.FCancelled \/ Exec.getf (StepExec.base x) i = Exec.FCancelledN) ->
+    StepSafe.xreach c x x' -> StepExec.xstep c x' t = Some (x'', Exec.LBody i) -> False.
+Proof. exact Fidelity.step_cancelled_never_runs. Qed.
+Print Assumptions C06_percall_cancelled_never_runs.
+
+Theorem C06_resolver_body_needs_running :
+  forall c n prog d t d' i,
+    ExecInv.wf_prog n prog -> DepSafe.wf_deps c n -> DepSafe.dreach c (DepExec.dinit n prog) d ->
+    DepExec.dstep c d t = Some (d', Exec.LBody i) -> Exec.getf (DepExec.dbase d) i = Exec.FRunning.
+Proof. exact Fidelity.dep_body_running. Qed.
+Print Assumptions C06_resolver_body_needs_running.
+
+Theorem C06_resolver_cancelled_never_runs :
+  forall c n prog d d' t d'' i,
+    ExecInv.wf_prog n prog -> DepSafe.wf_deps c n -> DepSafe.dreach c (DepExec.dinit n prog) d ->
+    (Exec.getf (DepExec.dbase d) i = Exec.FCancelled \/ Exec.getf (DepExec.dbase d) i = Exec.FCancelledN) ->
+    DepSafe.dreach c d d' -> DepExec.dstep c d' t = Some (d'', Exec.LBody i) -> False.
+Proof. exact Fidelity.dep_cancelled_never_runs. Qed.
+Print Assumptions C06_resolver_cancelled_never_runs.
